@@ -1,5 +1,5 @@
 (* Properties_C07.v — C07: stop sequences.  Theorems only. *)
-From Verif Require Import Lib WorldSpec LibSpec LibSpec2.
+From Verif Require Import Lib WorldSpec WorldSpec2 LibSpec LibSpec2 WaitSpec StopSpec TimeSpec.
 From Coq Require Import Lia.
 Local Open Scope Z_scope.
 
@@ -65,6 +65,32 @@ Theorem C07_status_only_if_reaped : forall p a, post (reproc_stop p a) status_re
 Proof. exact post_reproc_stop. Qed.
 Print Assumptions C07_status_only_if_reaped.
 
+(* "returns the child's exit status ONLY IF the child has exited and been reaped": for every
+   well-formed world (any fault plan, latencies, child behaviour) and every action triple, a
+   non-negative result of a stop on a running handle is the decoded wait status of the handle's
+   own child, which at a moment of the call was a zombie with that status and is reaped
+   afterwards (the reap of that pid is in the trace), and it is cached in the handle *)
+Theorem C07_status_is_reaped_childs : forall p acts w r p' w',
+  wf w -> h_status p = STATUS_IN_PROGRESS -> 0 < h_handle p -> h_handle p <> w_cur w ->
+  reproc_stop p acts w = Ret (r, p') w' -> 0 <= r ->
+  exists st wz,
+    pr_state (get_proc (h_handle p) wz) = Zombie st
+    /\ get_proc (h_handle p) w' = pr_with_state (Reaped st) (get_proc (h_handle p) wz)
+    /\ (exists pre, w_trace wz = pre ++ w_trace w)
+    /\ (exists post ev, w_trace w' = post ++ ev :: w_trace wz /\ e_call ev = CWaitpid /\ e_args ev = [h_handle p]
+                        /\ e_ret ev = h_handle p /\ e_outs ev = [Z.of_N st])
+    /\ r = parse_status (Z.of_N st)
+    /\ h_status p' = r.
+Proof. exact reproc_stop_exact. Qed.
+Print Assumptions C07_status_is_reaped_childs.
+
+(* the same for every action list the loop can be given *)
+Theorem C07_loop_status_is_reaped_childs : forall acts p r0 w r p' w',
+  wf w -> h_status p = STATUS_IN_PROGRESS -> 0 < h_handle p -> h_handle p <> w_cur w -> r0 < 0 ->
+  stop_loop acts p r0 w = Ret (r, p') w' -> 0 <= r -> wait_exact p w r p' w'.
+Proof. exact stop_loop_exact. Qed.
+Print Assumptions C07_loop_status_is_reaped_childs.
+
 (* on an already reaped child a stop whose first effective action is valid returns the status at
    once and sends nothing *)
 Theorem C07_already_exited : forall acts p r w, 0 <= h_status p ->
@@ -98,3 +124,9 @@ Print Assumptions C07_explicit_kept.
 
 Example C07_ex : stop_action_kind 2 = SK_terminate /\ stop_action_kind 7 = SK_invalid.
 Proof. split; reflexivity. Qed.
+
+(* "waits up to that action's timeout": every poll a stop sequence makes -- any action triple, any
+   world, schedule and fault plan -- is blocked between 0 and the time-out it was handed *)
+Theorem C07_stop_polls_bounded : forall p a, emits (reproc_stop p a) pollok.
+Proof. exact ok_reproc_stop. Qed.
+Print Assumptions C07_stop_polls_bounded.
